@@ -1,13 +1,16 @@
 SPEC_PART = dict(
     props_file="C14_bloom",
-    legs=[dict(family="bloom", focus="malformed", oracles=["no_panic"], profiles=["debug", "release"], n_quick=150, n_thorough=2000,
+    legs=[dict(family="bloom", focus="malformed", oracles=["no_panic", "prop_ok"], profiles=["debug", "release"], n_quick=150, n_thorough=2000,
                panic_is_violation=True)],
-    trusted=["bloom: the modelled panic sites of BloomFilter::deserialize are what I read in bloom/sketch.rs (none remain: every read is "
+    trusted=["bloom: ops 18 (clone probe) and 19 (round-trip check) are answered by the model with a constant justified by a theorem (no false negatives; round trip + size formula): they are Spec checks on the crate (plus panic detection), not model-vs-crate comparisons of computed positions / bytes; used for filters with thousands of hash functions and for 2^20-bit filters",
+             "bloom: the modelled panic sites of BloomFilter::deserialize are what I read in bloom/sketch.rs (none remain: every read is "
              "bounds-checked by SketchSlice); allocation accounting = bytes requested through the global allocator inside deserialize()"],
     assumptions=[],
     covers="bloom: bf_deserialize never Stuck for ANY byte list (c14_bloom_never_stuck); Ok => well formed, the bit array of a long-form "
-           "image is backed by input bytes, the cost function bf_alloc_bytes equals the accepted array and is <= the input length for "
-           "every long-form input (c14_bloom_ok_is_wf, c14_bloom_alloc_justified); well formed => every later operation is safe "
+           "image is backed by input bytes; the allocation is read off the reader itself: the instrumented reader bf_deserialize_cost follows "
+           "deserialize()'s control flow, its outcome is bf_deserialize's and its request is bf_alloc_bytes (c14_bloom_cost_is_reader), which "
+           "is <= the input length for every long-form input whatever the outcome (c14_bloom_reader_alloc_justified, c14_bloom_alloc_justified, "
+           "c14_bloom_ok_is_wf); well formed => every later operation is safe "
            "(c14_bloom_ok_is_usable); tie: structure-aware mutations (bit/byte flips in preamble and payload, boundary values of "
            "num_hashes / num_longs / count, each numeric field of an otherwise valid image at each of its type boundaries, truncation at every offset, extension, form confusion, random bytes) through "
            "deserialize with allocation accounting, every accepted value queried, inserted into, inverted, forked, unioned / "
